@@ -257,6 +257,14 @@ def audit_axioms(module, theorems: list[str]) -> dict:
         try: f.unlink()
         except OSError: pass
     out = r.stdout + r.stderr
+    if 'environment already contains' in out and len(modules) > 1:
+        # two modules of the list define a declaration of the same name (helper lemmas of different groups):
+        # they cannot be imported into one file — audit module by module and merge
+        for m_ in modules:
+            for t, ax in audit_axioms([m_], theorems).items():
+                if ax is not None:
+                    res[t] = ax
+        return res
     for t in theorems:
         m = re.search(r"'" + re.escape(t) + r"' depends on axioms: \[([^\]]*)\]", out, re.S)
         if m:
